@@ -46,6 +46,8 @@ type FileObj struct {
 	append bool
 	pos    int
 	closed bool
+	// the first Read on a handle is one fallible operation of the fault model (C16: "the k-th ... read ... call")
+	readChecked bool
 }
 
 type DirEntryObj struct {
@@ -217,6 +219,9 @@ func (x *Exec) pathErr(op string, p Str, kind string) Iface {
 func (x *Exec) fallible(op string, p Str) (Iface, bool) {
 	fs := x.fs
 	fs.opCount++
+	if traceFS {
+		fmt.Fprintf(os.Stderr, "OP #%d %s %s\n", fs.opCount, op, p.show())
+	}
 	if x.proc != nil {
 		x.proc.ops++
 	}
@@ -334,6 +339,9 @@ func init() {
 		if n.dir {
 			return Tuple{Slice{}, x.pathErr("read", p, "EISDIR")}
 		}
+		if e, f := x.fallible("read", p); f {
+			return Tuple{Slice{}, e}
+		}
 		s := x.fileBytes(n)
 		if s.a == nil {
 			s.a = []Value{}
@@ -417,6 +425,12 @@ func init() {
 		dst := a[1].(Slice)
 		if f.node.dir {
 			return Tuple{x.intConst(0), x.pathErr("read", f.path, "EISDIR")}
+		}
+		if !f.readChecked {
+			f.readChecked = true
+			if e, fl := x.fallible("read", f.path); fl {
+				return Tuple{x.intConst(0), e}
+			}
 		}
 		if f.pos >= len(f.node.data) {
 			return Tuple{x.intConst(0), x.errEOF()}
@@ -565,6 +579,36 @@ func init() {
 			out = append(out, Iface{t: errorType, v: &DirEntryObj{name: e.name, isDir: e.node.dir}})
 		}
 		return Tuple{Slice{a: out}, nilErr}
+	}
+
+	// (*os.File).ReadDir(n) on a directory handle: all entries (the model returns them in name order; n <= 0 only)
+	intrinsics["(*os.File).ReadDir"] = func(x *Exec, a []Value) Value {
+		f := a[0].(*FileObj)
+		if f == nil {
+			return Tuple{Slice{}, x.newErrS("invalid argument", "EINVAL")}
+		}
+		if cnt, ok := a[1].(*Term); !ok || cnt.op != OpConst || sval(cnt.w, cnt.k) > 0 {
+			x.engineErr("(*os.File).ReadDir with a positive count is not modelled")
+		}
+		if e, fl := x.fallible("readdir", f.path); fl {
+			return Tuple{Slice{}, e}
+		}
+		if !f.node.dir {
+			return Tuple{Slice{}, x.pathErr("readdirent", f.path, "ENOTDIR")}
+		}
+		out := []Value{}
+		for _, e := range x.sortedEnts(f.node) {
+			out = append(out, Iface{t: errorType, v: &DirEntryObj{name: e.name, isDir: e.node.dir}})
+		}
+		return Tuple{Slice{a: out}, nilErr}
+	}
+	intrinsics["io/fs.FileInfoToDirEntry"] = func(x *Exec, a []Value) Value {
+		ifc := a[0].(Iface)
+		fi, ok := ifc.v.(*FileInfoObj)
+		if !ok {
+			return Iface{}
+		}
+		return Iface{t: errorType, v: &DirEntryObj{name: fi.name, isDir: fi.isDir}}
 	}
 
 	// ---- path/filepath (Unix) ----
